@@ -128,7 +128,12 @@ class M:
         self.id = digest(train, [tok(l) for l in labels], fams, config)
 
 
-def _labels(rng, d):
+def _labels(rng, d, force=None):
+    if force == 'permrange':          # integer labels 0..d-1 in a NON-natural table order (e.g. [2, 0, 1])
+        pool = list(range(d))
+        while pool == list(range(d)):
+            rng.shuffle(pool)
+        return pool, 'int'
     kind = rng.choice(['str', 'str', 'int', 'int', 'mixed'])
     names = ['a', 'b', 'col c', 'Δ', 'x1', 'y', '0', '1', 'zz top', 'w']
     if kind == 'str':
@@ -150,7 +155,7 @@ FQN = {'gaussian': 'copulas.univariate.gaussian.GaussianUnivariate', 'gamma': 'c
        'kde': 'copulas.univariate.gaussian_kde.GaussianKDE'}
 
 
-def make_model(rng, nr, force=None, config='dict-full'):
+def make_model(rng, nr, force=None, config='dict-full', labels_force=None):
     from copulas.multivariate import GaussianMultivariate
     from copulas.univariate import BetaUnivariate, GammaUnivariate, GaussianKDE, GaussianUnivariate, UniformUnivariate
     cls = {'gaussian': GaussianUnivariate, 'gamma': GammaUnivariate, 'beta': BetaUnivariate,
@@ -166,7 +171,7 @@ def make_model(rng, nr, force=None, config='dict-full'):
     C = S * s[:, None] * s[None, :]
     Z = nr.multivariate_normal(np.zeros(d), C, size=n)
     cols, fams, dist = [], [], {}
-    labels, lkind = _labels(rng, d)
+    labels, lkind = _labels(rng, d, labels_force)
     if config == 'array-train-int-dict':
         labels, lkind = list(range(d)), 'int'      # what pd.DataFrame(ndarray) names the columns
     single = rng.choice(['gaussian', 'uniform', 'kde']) if config in ('class', 'name', 'instance') else None
@@ -264,7 +269,9 @@ def models_for(ctx, stream, count):
             # these need control over every marginal (scipy-only families / coinciding score columns)
             configs.insert(0, config)
             config = 'dict-full'
-        m = make_model(rng, nr, special, config)
+        m = make_model(rng, nr, special, config, 'permrange' if k % 5 == 3 and config != 'array-train-int-dict' else None)
+        if sorted(map(str, m.labels)) == sorted(map(str, range(m.d))) and m.labels != list(range(m.d)):
+            ctx.count('model.labels=permuted-range')
         out.append(m)
         ctx.count('model.config=' + m.config)
         if m.cols != m.labels:
@@ -329,6 +336,15 @@ def forms_of(rng, m, rows, extra_ok=True):
             ls = ls[:pos] + [name] + ls[pos:]
             data = np.column_stack([data[:, :pos], np.full(n, 12.5 + e), data[:, pos:]])
         out.append(('frame-extra', ('frame', ls, data), pd.DataFrame(data, columns=ls)))
+    if all(isinstance(l, (int, np.integer)) for l in L) and sorted(L) == list(range(d)):
+        # labels are 0..d-1 (in any table order): a frame / Series in NATURAL label order whose header is the default
+        # RangeIndex, resp. a plain integer Index - still aligned BY LABEL
+        nat = [L.index(i) for i in range(d)]
+        out.append(('frame-rangeindex', ('frame', list(range(d)), rows[:, nat]), pd.DataFrame(rows[:, nat].copy())))
+        out.append(('frame-intindex', ('frame', list(range(d)), rows[:, nat]),
+                    pd.DataFrame(rows[:, nat].copy(), columns=pd.Index(list(range(d)), dtype='int64'))))
+        if n == 1:
+            out.append(('series-rangeindex', ('series', list(range(d)), rows[0, nat]), pd.Series(rows[0, nat].copy())))
     out.append(('arr2', ('arr2', rows), np.array(rows)))
     if n == 1:
         out.append(('series', ('series', L, rows[0]), pd.Series(rows[0], index=L)))
@@ -626,6 +642,8 @@ def malformed(ctx, lean, m, rng, nr, tr):
         rng.shuffle(keep)
         cases.append(('subset-some', ('frame', [L[i] for i in keep], rows[:, keep])))
     cases.append(('series-subset', ('series', [L[one]], rows[0, [one]])))
+    if sorted(map(str, L)) != sorted(map(str, range(d))):
+        cases.append(('default-rangeindex-header', ('frame-default', list(range(d)), rows)))
     cases.append(('arr2-narrow', ('arr2', rows[:, :d - 1])))
     cases.append(('arr2-wide', ('arr2', np.column_stack([rows, rows[:, 0]]))))
     cases.append(('arr1-narrow', ('arr1', rows[0, :d - 1])))
@@ -636,7 +654,10 @@ def malformed(ctx, lean, m, rng, nr, tr):
         dup = rng.randrange(d)
         cases.append(('dup-label', ('frame', L + [L[dup]], np.column_stack([rows, rows[:, dup] + 1.0]))))
     for kind, c in cases:
-        if c[0] == 'frame':
+        if c[0] == 'frame-default':
+            X = pd.DataFrame(np.asarray(c[2], dtype=float))          # header = RangeIndex(d): labels 0..d-1, aligned by label
+            c = ('frame',) + tuple(c[1:])
+        elif c[0] == 'frame':
             X = pd.DataFrame(np.asarray(c[2], dtype=float).reshape(-1, len(c[1])), columns=c[1])
         elif c[0] == 'series':
             X = pd.Series(c[2], index=c[1])
